@@ -42,7 +42,7 @@ def track_events(td, bpm, repeat, with_name=True, with_instrument=True):
             ev.append((None, "name", td["name"] if td.get("name") is not None else "Untitled"))
         first = nr is not None
         for b in td["bars"]:
-            ev.append((tick, "ts", b["meter"][0], log2(b["meter"][1]), 24, 8))
+            ev.append((tick, "ts", b["meter"][0], log2(b["meter"][1])))
             ev.append((tick, "ks") + key_bytes(b["key"]))
             for e in b["entries"]:
                 d = ticks(e["v"])
@@ -62,6 +62,9 @@ def track_events(td, bpm, repeat, with_name=True, with_instrument=True):
     return ev
 
 
+ANNOTATION_METAS = (0x00, 0x01, 0x02, 0x04, 0x05, 0x06, 0x07, 0x20, 0x21, 0x7F)
+
+
 def decode_events(track_events_raw):
     """translate R-smf events into the same vocabulary; unknown events are kept as ('?', ...) so they cause a mismatch"""
     ev = []
@@ -74,11 +77,15 @@ def decode_events(track_events_raw):
             elif ty == 0x03:
                 ev.append((None, "name", dat.decode("ascii", "replace")))
             elif ty == 0x58 and len(dat) == 4:
-                ev.append((t, "ts") + tuple(dat))
+                # numerator and denominator exponent are the time signature; the metronome-click and 32nds-per-quarter bytes are
+                # presentation hints the statement does not talk about
+                ev.append((t, "ts", dat[0], dat[1]))
             elif ty == 0x59 and len(dat) == 2:
                 ev.append((t, "ks", dat[0] - 256 if dat[0] > 127 else dat[0], dat[1]))
             elif ty == 0x2F:
                 pass
+            elif ty in ANNOTATION_METAS:
+                pass  # text, copyright, instrument name, lyric, marker, cue point, channel / port prefix, sequencer-specific: no music
             else:
                 ev.append((t, "?meta", ty, dat.hex()))
         elif e[1] == "on":
